@@ -22,6 +22,7 @@ type HistOpts struct {
 	Boundary      bool // include malformed / boundary inputs (0x values, forged reports, gov list changes by gov ...)
 	GovOps        bool // governance-signed privileged ops (cycle list, params, spec updates, mint init)
 	NoBadValues   bool // never submit values that the known halting defects need (used while a finding is open)
+	ValStatus     bool // SDK-native validator jail / unjail events (validators leave and re-enter the bonded set)
 	DisputeBias   int  // extra weight for dispute lifecycle ops
 	StakingBias   int
 	BridgeBias    int
@@ -261,6 +262,16 @@ func (w *World) RandomOp(o HistOpts) {
 			w.RegisterSpec(w.anyActor(), []string{"spotprice", "newtype", "trbbridge"}[w.pick(3)], spec)
 		}},
 	}
+	if o.ValStatus && len(w.Vals) > 1 {
+		ops = append(ops, op{3, func() {
+			v := w.Vals[1+w.pick(len(w.Vals)-1)] // v0 stays bonded (assumption A-1)
+			if w.pick(2) == 0 {
+				w.ValJail(v)
+			} else {
+				w.ValUnjail(v)
+			}
+		}})
+	}
 	if o.Boundary {
 		// privileged messages from non-authority signers (must be rejected)
 		ops = append(ops, op{2, func() {
@@ -399,6 +410,15 @@ func min(a, b int) int {
 }
 
 func (w *World) gap(o HistOpts) time.Duration {
+	d := w.gapMs(o)
+	if o.TimeJumps && w.pick(3) == 0 {
+		// consensus block times have nanosecond resolution: gaps of k ms plus a sub-millisecond part
+		d += time.Duration(w.pick(1_000_000))
+	}
+	return d
+}
+
+func (w *World) gapMs(o HistOpts) time.Duration {
 	if !o.TimeJumps {
 		return time.Duration(1+w.pick(6)) * time.Second
 	}
